@@ -98,7 +98,8 @@ theorem merge_is_resultpath_then_outputpath (data ctx result state placed : Json
   simp [mergeResult, h]
 
 /-- Task: InputPath, Parameters, the task, ResultSelector, ResultPath (raw input), OutputPath.  (`ha`: the worker
-answers at `tEnd`, before the time limit in force — the earlier of the Task's own and the execution's.) -/
+answers at `tEnd`, before the time limit in force — the earlier of the Task's own, `own`: from `TimeoutSeconds` or
+`TimeoutSecondsPath`, and the execution's.) -/
 theorem task_pipeline (env : Env) (fuel : Nat) (states : Json) (name fn : Str)
     (state data ctx input params v result out : Json) (retries : Nat) (st : St)
     (h : stateType state = S "Task")
@@ -106,8 +107,9 @@ theorem task_pipeline (env : Env) (fuel : Nat) (states : Json) (name fn : Str)
     (hi : applyPath data ctx (pathArg state "InputPath") = .ok input)
     (hp : tmplOpt env input ctx (fld state "Parameters") = .ok params)
     (tEnd : Rat)
+    (own : Option Rat) (hown : taskOwnDeadline state data ctx st.clock = .ok own)
     (ha : taskArrival (env.delay fn params (bump st.counts (fn, params)).1)
-        ((taskLimit (taskDeadline state st.clock) env.deadline st.clock).map (·.t)) st.clock
+        ((taskLimit own env.deadline st.clock).map (·.t)) st.clock
       = some (tEnd, false))
     (hv : taskReply env.maxData (env.task fn params (bump st.counts (fn, params)).1) = .ok v)
     (hs : tmplOpt env v ctx (fld state "ResultSelector") = .ok result)
@@ -121,7 +123,7 @@ theorem task_pipeline (env : Env) (fuel : Nat) (states : Json) (name fn : Str)
   have h3 : (S "Task" = S "Fail") = False := by decide
   have h4 : (S "Task" = S "Wait") = False := by decide
   have h5 : (S "Task" = S "Choice") = False := by decide
-  simp [runState, h, h1, h2, h3, h4, h5, hr, hi, hp, ha, taskOutcome, taskEv, hv, hs, hm]
+  simp [runState, h, h1, h2, h3, h4, h5, hr, hi, hp, hown, ha, taskOutcome, taskEv, hv, hs, hm]
 
 /-- a worker's reply whose text is longer than the size limit is the error `States.DataLimitExceeded`,
 whatever it says; a reply within the limit is read by `decodeReply` -/
@@ -142,8 +144,9 @@ theorem task_error_goes_to_handler (env : Env) (fuel : Nat) (states : Json) (nam
     (hi : applyPath data ctx (pathArg state "InputPath") = .ok input)
     (hp : tmplOpt env input ctx (fld state "Parameters") = .ok params)
     (tEnd : Rat)
+    (own : Option Rat) (hown : taskOwnDeadline state data ctx st.clock = .ok own)
     (ha : taskArrival (env.delay fn params (bump st.counts (fn, params)).1)
-        ((taskLimit (taskDeadline state st.clock) env.deadline st.clock).map (·.t)) st.clock
+        ((taskLimit own env.deadline st.clock).map (·.t)) st.clock
       = some (tEnd, false))
     (hv : taskReply env.maxData (env.task fn params (bump st.counts (fn, params)).1) = .err e msg) :
     runState env (fuel + 1) states name state data ctx retries st =
@@ -155,7 +158,7 @@ theorem task_error_goes_to_handler (env : Env) (fuel : Nat) (states : Json) (nam
   have h3 : (S "Task" = S "Fail") = False := by decide
   have h4 : (S "Task" = S "Wait") = False := by decide
   have h5 : (S "Task" = S "Choice") = False := by decide
-  simp [runState, h, h1, h2, h3, h4, h5, hr, hi, hp, ha, taskOutcome, taskEv, hv]
+  simp [runState, h, h1, h2, h3, h4, h5, hr, hi, hp, hown, ha, taskOutcome, taskEv, hv]
 
 /-- after a successful fan-out: ResultSelector on the array of results, ResultPath into the
 fan-out state's *raw* input (not its effective input), OutputPath, then Next/End -/
